@@ -2,7 +2,10 @@ use crate::util::address::Address;
 use crate::util::conversions;
 use crate::util::freelist::FreeList;
 use crate::util::opaque_pointer::*;
+#[cfg(not(mmtk_verif))]
 use std::sync::Mutex;
+#[cfg(mmtk_verif)]
+use crate::util::verif::sync::Mutex;
 
 use super::layout::VMMap;
 use crate::util::heap::space_descriptor::SpaceDescriptor;
